@@ -75,7 +75,7 @@ func init() {
 			for i := 0; i < ns; i++ {
 				sc.Stages = append(sc.Stages, StageSpec{Op: passStages[g.Intn(len(passStages))], P: []int{1}})
 			}
-			sc.SetInt("raw", g.Intn(2))
+			sc.SetInt("raw", g.PickInt(0, 0, 1, 1, 2, 3))
 			return sc
 		},
 		Run: func(e *Env) {
@@ -88,7 +88,7 @@ func init() {
 				srcs = append(srcs, s)
 				obs = append(obs, s.Obs())
 			}
-			o := c.Build(e, obs)
+			o := c.Apply(e, obs)
 			o = e.BuildChain(o, sc.Stages, func(i int) ro.Observable[int] { return ro.Empty[int]() })
 			rec := e.NewRec("o")
 			e.Go("subscriber", func() { o.Subscribe(rec.Obs()) })
@@ -120,8 +120,13 @@ func init() {
 			}
 			if g.Bool(0.5) {
 				sc.Stages = append(sc.Stages, StageSpec{Op: g.Pick("Map", "Tap", "StartWith", "TapOnFinalize", "TapOnSubscribe", "Defer", "Catch", "Scan", "TakeLast"), P: []int{1}})
+				if g.Bool(0.5) {
+					// ... followed by an operator that keeps state without a lock of its own: it relies on the
+					// serialisation the source's constructor promised (what the race detector looks at)
+					sc.Stages = append(sc.Stages, StageSpec{Op: g.Pick("Scan", "MapI", "Distinct", "Pairwise", "Skip", "BufferWithCount"), P: []int{2}})
+				}
 			}
-			sc.SetInt("raw", g.Intn(2))
+			sc.SetInt("raw", g.PickInt(0, 0, 1, 1, 2, 3))
 			return sc
 		},
 		Run: func(e *Env) {
@@ -180,7 +185,7 @@ func init() {
 			if g.Bool(0.4) {
 				sc.Stages = append(sc.Stages, StageSpec{Op: g.Pick("Map", "StartWith", "TapOnFinalize", "Tap"), P: []int{1}})
 			}
-			sc.SetInt("raw", g.Intn(2))
+			sc.SetInt("raw", g.PickInt(0, 0, 1, 1, 2, 3))
 			return sc
 		},
 		Run: func(e *Env) {
@@ -230,7 +235,7 @@ func init() {
 			if g.Bool(0.5) {
 				sc.Stages = append(sc.Stages, StageSpec{Op: passStages[g.Intn(len(passStages))], P: []int{1}})
 			}
-			sc.SetInt("raw", g.Intn(2))
+			sc.SetInt("raw", g.PickInt(0, 0, 1, 1, 2, 3))
 			// the subscription context is cancelled while the producers emit: the context watchers of the
 			// library (ThrowOnContextCancel, timers bound to the context) are one more concurrent producer
 			sc.SetInt("cancel", g.PickInt(-1, -1, 0, 0, 1, 2, 3))
